@@ -76,6 +76,10 @@ class Gen(kv.Gen):
             rep = yield "stats a"
             if rep.split()[4:] and int(rep.split()[4]) > 1:
                 orc.hit("hold_older_table")
+            if r.random() < 0.6:
+                # an iteration over the store that its callback stops early (the LRU sampling does that) - before values are taken
+                yield "rangestop a %d" % r.choice([1, 2, 5])
+                orc.hit("range_stopped_early_before_get")
             for hk in range(self.nk):
                 if r.random() < 0.8:
                     yield "hold a %d" % hk
